@@ -1,7 +1,9 @@
 """Runs UnionFind / PriorityQueue histories on /repo's implementation and reports canonical observations.
 
 stdin : {"uf": [ {"elts": [desc...], "ops": [[opname, args...], ...]}, ...], "pq": [ [[op,...],...], ...]}
-stdout: '@@JSON ' + {"uf": [[obs,...],...], "pq": [[obs,...],...]}
+stdout: '@@JSON ' + {"uf": [{"order": [...]|null, "obs": [obs,...]},...], "pq": [[obs,...],...]}
+A uf case may carry "init" (constructor argument) and "ambient" (a second structure alive in the session); a pq
+case may be {"ops": [...], "ambient": [[...], ...]} (several queues alive at once).
 An element descriptor is ["i", 3] | ["t", [1,2]] | ["s", "ab"]; element codes are positions in "elts"
 (the op ["getitem", i] carries a raw integer index instead, answered ["elt", code] or ["indexerror"]).
 """
@@ -21,7 +23,34 @@ def mk(desc):
     raise ValueError(desc)
 
 
+def build_uf(UnionFind, objs, code_of, init):
+    """init: None / {"kind": "noarg"} -> UnionFind(); {"kind": "none"} -> UnionFind(None);
+    {"kind": "list"|"tuple"|"set"|"frozenset"|"gen", "elems": [codes]} -> UnionFind(<that container>).
+    Returns the structure and the order in which the container hands out its elements (codes; None = no container)."""
+    if init is None or init.get("kind") == "noarg":
+        return UnionFind(), None
+    kind = init["kind"]
+    if kind == "none":
+        return UnionFind(None), None
+    elems = [objs[c] for c in init["elems"]]
+    if kind == "list":
+        cont, order = list(elems), list(init["elems"])
+    elif kind == "tuple":
+        cont, order = tuple(elems), list(init["elems"])
+    elif kind in ("set", "frozenset"):
+        cont = set(elems) if kind == "set" else frozenset(elems)
+        order = [code_of(o) for o in cont]  # iteration order of this very object
+    elif kind == "gen":
+        cont, order = (e for e in elems), list(init["elems"])
+    else:
+        raise ValueError(kind)
+    return UnionFind(cont), order
+
+
 def run_uf(case):
+    """Runs the case's history on one structure; if the case has an "ambient" history, a second structure (same
+    element objects) is alive in the same session and its operations are interleaved (answers discarded): the two
+    must not share state. Returns {"order": constructor iteration order or None, "obs": [...]}."""
     from mouette.utils.unionfind import UnionFind
     objs = [mk(d) for d in case["elts"]]
     code = {}
@@ -49,9 +78,7 @@ def run_uf(case):
             return ["other", "duplicate"]
         return ["set", sorted(l)]
 
-    uf = UnionFind()
-    out = []
-    for op in case["ops"]:
+    def do(uf, op):
         name = op[0]
         # `getitem` takes a raw integer index (possibly negative / out of range), every other op element codes
         args = [] if name == "getitem" else [objs[a] for a in op[1:]]
@@ -59,35 +86,34 @@ def run_uf(case):
             if name == "getitem":
                 r = uf[op[1]]
                 c = enc(r)
-                out.append(["elt", c] if c is not None else ["other", "uf[%d] returned %r" % (op[1], r)])
+                return ["elt", c] if c is not None else ["other", "uf[%d] returned %r" % (op[1], r)]
             elif name == "add":
                 r = uf.add(*args)
-                out.append(["none"] if r is None else ["other", repr(r)])
+                return ["none"] if r is None else ["other", repr(r)]
             elif name == "union":
                 r = uf.union(*args)
-                out.append(["none"] if r is None else ["other", repr(r)])
+                return ["none"] if r is None else ["other", repr(r)]
             elif name == "find":
                 r = uf.find(*args)
                 e = uf[r]
                 fix = uf.find(e) == r
                 c = enc(e)
-                out.append(["elt", c] if (fix and c is not None) else ["other", "find returned a non-root"])
+                return ["elt", c] if (fix and c is not None) else ["other", "find returned a non-root"]
             elif name == "connected":
                 r = uf.connected(*args)
-                out.append(["bool", bool(r)] if isinstance(r, (bool,)) or type(r).__name__ == "bool_" else ["other", repr(r)])
+                return ["bool", bool(r)] if isinstance(r, (bool,)) or type(r).__name__ == "bool_" else ["other", repr(r)]
             elif name == "component":
                 r = uf.component(*args)
-                out.append(enc_set(r) if isinstance(r, (set, frozenset)) else ["other", repr(r)])
+                return enc_set(r) if isinstance(r, (set, frozenset)) else ["other", repr(r)]
             elif name == "roots":
                 r = uf.roots()
-                out.append(enc_set([uf[int(i)] for i in r]) if isinstance(r, (set, frozenset)) else ["other", repr(r)])
+                return enc_set([uf[int(i)] for i in r]) if isinstance(r, (set, frozenset)) else ["other", repr(r)]
             elif name == "components":
                 r = uf.components()
                 l = [enc_set(c) for c in r]
                 if any(c[0] != "set" for c in l):
-                    out.append(["other", "bad component"])
-                else:
-                    out.append(["sets", sorted(c[1] for c in l)])
+                    return ["other", "bad component"]
+                return ["sets", sorted(c[1] for c in l)]
             elif name == "mapping":
                 r = uf.component_mapping()
                 items = []
@@ -97,32 +123,61 @@ def run_uf(case):
                     if ck is None or cv[0] != "set":
                         bad = True
                     items.append([ck, cv[1]])
-                out.append(["other", "bad mapping"] if bad else ["map", sorted(items)])
+                return ["other", "bad mapping"] if bad else ["map", sorted(items)]
             elif name == "len":
-                out.append(["nat", len(uf)])
+                return ["nat", len(uf)]
             elif name == "ncomps":
-                out.append(["nat", int(uf.n_comps)])
+                return ["nat", int(uf.n_comps)]
             elif name == "contains":
-                out.append(["bool", args[0] in uf])
+                return ["bool", args[0] in uf]
             else:
                 raise RuntimeError("unknown op " + name)
         except IndexError:
-            out.append(["indexerror"])
+            return ["indexerror"]
         except ValueError as ex:
             # the documented error for an absent element is ValueError('... is not an element')
             if "is not an element" in str(ex):
-                out.append(["valueerror"])
-            else:
-                out.append(["other", "ValueError: %s" % ex])
+                return ["valueerror"]
+            return ["other", "ValueError: %s" % ex]
         except Exception as ex:  # noqa
-            out.append(["other", "%s: %s" % (type(ex).__name__, ex)])
-    return out
+            return ["other", "%s: %s" % (type(ex).__name__, ex)]
 
-
-def run_pq(ops):
-    from mouette.utils.priority_queue import PriorityQueue
-    pq = PriorityQueue()
+    try:
+        uf, order = build_uf(UnionFind, objs, enc, case.get("init"))
+    except Exception as ex:  # noqa
+        return {"order": None, "obs": [["other", "constructor: %s: %s" % (type(ex).__name__, ex)] for _ in case["ops"]]}
+    amb = case.get("ambient")
+    amb_uf, amb_ops = None, []
+    if amb:
+        try:
+            amb_uf, _ = build_uf(UnionFind, objs, enc, amb.get("init"))
+            amb_ops = amb.get("ops", [])
+        except Exception:  # noqa
+            amb_uf = None
     out = []
+    for k, op in enumerate(case["ops"]):
+        if amb_uf is not None and k < len(amb_ops):
+            do(amb_uf, amb_ops[k])
+        out.append(do(uf, op))
+    return {"order": order, "obs": out}
+
+
+def mkpayload(code):
+    """payload object of a queue item: mutually unorderable kinds (the payload is declared compare=False)"""
+    return [code, "p%d" % code, (code, "t"), None, complex(code, 1)][code % 5]
+
+
+def run_pq(case):
+    """case: a list of ops, or {"ops": [...], "ambient": [[ops], ...]}: the ambient queues are alive in the same
+    session and their operations are interleaved (answers discarded)."""
+    from mouette.utils.priority_queue import PriorityQueue
+    ops = case["ops"] if isinstance(case, dict) else case
+    ambient = case.get("ambient", []) if isinstance(case, dict) else []
+    pq = PriorityQueue()
+    others = [(PriorityQueue(), a) for a in ambient]
+    out = []
+    ident = {}   # id(PriorityItem) -> payload code (the items stay alive in `keep`)
+    keep = []
 
     def pr(p):
         if p == math.inf:
@@ -131,26 +186,53 @@ def run_pq(ops):
             return "-inf"
         return p
 
-    def data():
-        return [[it.x, pr(it.priority)] for it in pq.data]
+    def val(w):
+        return math.inf if w == "inf" else (-math.inf if w == "-inf" else w)
 
-    for op in ops:
+    def code_of(it):
+        return ident.get(id(it), -1)
+
+    def data():
+        return [[code_of(it), pr(it.priority)] for it in pq.data]
+
+    def register(c):
+        for it in pq.data:
+            if id(it) not in ident:
+                ident[id(it)] = c
+                keep.append(it)
+
+    for k, op in enumerate(ops):
+        for q, aops in others:
+            if k < len(aops):
+                a = aops[k]
+                try:
+                    if a[0] == "push":
+                        q.push(mkpayload(a[1]), val(a[2]))
+                    elif a[0] in ("pop", "get"):
+                        q.pop()
+                    elif a[0] == "empty":
+                        q.empty()
+                    else:
+                        q.front
+                except Exception:  # noqa
+                    pass
         name = op[0]
         try:
             if name == "push":
-                w = op[2]
-                w = math.inf if w == "inf" else (-math.inf if w == "-inf" else w)
-                r = pq.push(op[1], w)
+                try:
+                    r = pq.push(mkpayload(op[1]), val(op[2]))
+                finally:
+                    register(op[1])
                 o = ["none"] if r is None else ["other", repr(r)]
             elif name in ("pop", "get"):
                 it = pq.pop() if name == "pop" else pq.get()
-                o = ["item", it.x, pr(it.priority)]
+                o = ["item", code_of(it), pr(it.priority)]
             elif name == "empty":
                 r = pq.empty()
                 o = ["bool", bool(r)] if isinstance(r, bool) else ["other", repr(r)]
             elif name == "front":
                 it = pq.front
-                o = ["item", it.x, pr(it.priority)]
+                o = ["item", code_of(it), pr(it.priority)]
             else:
                 raise RuntimeError(name)
         except IndexError:
